@@ -24,7 +24,7 @@ pub static PROP: PropDef = PropDef {
         "QPACK encoder/decoder streams: only the stream type is judged (h3 sends no instructions)",
     ],
     tape_len: 700,
-    random_cases: |t| t.pick(20_000, 1_000_000),
+    random_cases: |t| t.pick(80_000, 3_000_000),
     run_tape,
     exhaustive: None,
     run_direct: None,
